@@ -3,6 +3,8 @@ package rules
 import (
 	"fmt"
 	"go/token"
+	"go/types"
+	"sort"
 	"strings"
 
 	"bxhlint/core"
@@ -19,6 +21,7 @@ func C03(c *Ctx) {
 	r := c.R
 	r.Rule("R03.1", "proofs before execution: in processExecuteEvent verifyProofs precedes ApplyTransactions on every path; inside verifyProofs the only returns taken before the verification goroutines are joined lie behind the enumerated edges (genesis height 1, empty block, block.Extra marker - which no code of the repository sets); every CheckProof call is executed for each element of its loop (no path back to the loop head that skips it).")
 	r.Rule("R03.7", "the verification groups cover the block: the per-group length is len(txs)/groupNum (integer division rounds down), so some group's slice of the block has to be open-ended or end at len(txs) - otherwise the len(txs) % groupNum transactions at the tail of a block are executed without any proof check; every group slice starts at i*groupLen.")
+	r.Rule("R03.8", "the verdict comes from the ledger of this call: no function reachable from VerifyPool.CheckProof reads (Load / Range / lookup / index) a container field of the VerifyPool (sync.Map, map, slice, cache) that is filled after construction; appchain record, trust root, validator set and rule address are read from the ledger in the same invocation, so a verdict never rests on what an earlier block stored.")
 	r.Rule("R03.2", "rejection contract: every `return false, ..` of a CheckProof implementation carries a provably non-nil error, because the consumer records err.Error() as invalid reason without a nil test; in the consumer the !ok branch stores the invalid reason for that index.")
 	r.Rule("R03.3", "invalid reason short-circuits execution: in applyBxhTransaction every VM entry lies behind the invalidReason == \"\" edge.")
 	r.Rule("R03.4", "proof binding: in verifyProof the rule engine and the multi-signature check are reachable only across bytes.Equal(sha256(proof), ibtp.Proof) == true and proof != nil; the rule address given to Validate comes from getValidateAddress(chainID); getValidateAddress selects a rule only across the edge Status == GovernanceAvailable.")
@@ -130,6 +133,8 @@ func C03(c *Ctx) {
 		r.Floor("R03.1", "CheckProof call sites", ncp, 1)
 		c.c03Partition(vp)
 	}
+
+	c.c03NoMemo()
 
 	// ---- R03.2
 	cha := core.NewCHA(c.P)
@@ -597,4 +602,120 @@ func isVMEntryThroughHelper(c *Ctx, in ssa.Instruction, d int) bool {
 		}
 	}
 	return false
+}
+
+// c03NoMemo: R03.8 - the verdict is computed from the ledger of the current call, not from a memory of an earlier one.
+func (c *Ctx) c03NoMemo() {
+	r := c.R
+	cp := c.fn("R03.8", "pkg/proof.(*VerifyPool).CheckProof")
+	if cp == nil {
+		return
+	}
+	// functions of pkg/proof reachable from CheckProof (static calls, closures included)
+	reach := map[*ssa.Function]bool{}
+	var visit func(fn *ssa.Function)
+	visit = func(fn *ssa.Function) {
+		if fn == nil || reach[fn] || len(fn.Blocks) == 0 || core.PkgOf(fn) != "pkg/proof" {
+			return
+		}
+		reach[fn] = true
+		for _, a := range fn.AnonFuncs {
+			visit(a)
+		}
+		for _, call := range core.Calls(fn) {
+			visit(core.StaticCallee(call))
+		}
+	}
+	visit(cp)
+	isContainer := func(t types.Type) bool {
+		if p, ok := t.Underlying().(*types.Pointer); ok {
+			t = p.Elem()
+		}
+		switch t.Underlying().(type) {
+		case *types.Map, *types.Slice:
+			return true
+		}
+		s := t.String()
+		return s == "sync.Map" || strings.Contains(s, "lru.") || strings.Contains(s, "Cache")
+	}
+	readOps := map[string]bool{"Load": true, "LoadOrStore": true, "Range": true, "Get": true, "Peek": true, "Contains": true, "LoadAndDelete": true}
+	writeOps := map[string]bool{"Store": true, "LoadOrStore": true, "Swap": true, "Add": true, "ContainsOrAdd": true, "CompareAndSwap": true}
+	type use struct {
+		fn  *ssa.Function
+		pos token.Pos
+	}
+	reads, writes := map[string][]use{}, map[string][]use{}
+	fields := map[string]bool{}
+	for _, fn := range c.P.ModuleFuncs(true) {
+		if core.PkgOf(fn) != "pkg/proof" {
+			continue
+		}
+		for _, b := range fn.Blocks {
+			for _, in := range b.Instrs {
+				fa, ok := in.(*ssa.FieldAddr)
+				if !ok {
+					continue
+				}
+				owner, f, _, ok2 := core.FieldOf(fa)
+				if !ok2 || !strings.HasSuffix(owner, "proof.VerifyPool") {
+					continue
+				}
+				ft := fa.Type().Underlying().(*types.Pointer).Elem()
+				if !isContainer(ft) {
+					continue
+				}
+				fields[f] = true
+				// how is the field used: follow loads of the field value and method calls on it
+				var follow func(v ssa.Value, d int)
+				follow = func(v ssa.Value, d int) {
+					if v.Referrers() == nil || d > 3 {
+						return
+					}
+					for _, ref := range *v.Referrers() {
+						switch x := ref.(type) {
+						case *ssa.UnOp:
+							follow(x, d+1)
+						case *ssa.Lookup, *ssa.Index, *ssa.IndexAddr, *ssa.Range:
+							reads[f] = append(reads[f], use{fn, ref.Pos()})
+						case *ssa.MapUpdate:
+							writes[f] = append(writes[f], use{fn, ref.Pos()})
+						case *ssa.Store:
+							if x.Addr == v && fn.Name() != "New" {
+								writes[f] = append(writes[f], use{fn, ref.Pos()})
+							}
+						case ssa.CallInstruction:
+							if o := core.CalleeObj(x); o != nil && core.Receiver(x) == v {
+								if readOps[o.Name()] {
+									reads[f] = append(reads[f], use{fn, ref.Pos()})
+								}
+								if writeOps[o.Name()] {
+									writes[f] = append(writes[f], use{fn, ref.Pos()})
+								}
+							}
+						}
+					}
+				}
+				follow(fa, 0)
+			}
+		}
+	}
+	var names []string
+	for f := range fields {
+		names = append(names, f)
+	}
+	sort.Strings(names)
+	for _, f := range names {
+		bad := ""
+		if len(writes[f]) > 0 {
+			for _, u := range reads[f] {
+				if reach[u.fn] {
+					bad = c.P.Pos(u.pos)
+				}
+			}
+		}
+		r.Check(bad == "", "R03.8", "VerifyPool."+f+": not a memo on the verification path", "", fmt.Sprintf("%d read(s), %d write(s); none of the reads is reachable from CheckProof", len(reads[f]), len(writes[f])),
+			"functions reachable from CheckProof read VerifyPool."+f+" ("+bad+"), a container that is filled after construction: the verdict can be computed from data remembered from an earlier call (trust root, validators, rule address as they were then) instead of the ledger state of this block; the memory also differs between replicas that restarted at different times")
+	}
+	r.OK("R03.8", "verification path analysed", c.P.Pos(cp.Pos()), fmt.Sprintf("%d functions of pkg/proof reachable from CheckProof, %d container fields of VerifyPool", len(reach), len(names)))
+	r.Floor("R03.8", "functions reachable from CheckProof", len(reach), 3)
 }
